@@ -253,8 +253,10 @@ spif_str_t spif_str_dup(spif_str_t self)
 __CPROVER_requires(self != NULL && self->s != NULL && self->len >= 0 && self->len < self->size && self->size <= VCAP)
 __CPROVER_assigns()
 __CPROVER_ensures(__CPROVER_is_fresh(__CPROVER_return_value, sizeof(spif_const_str_t)))
+/* (only len+1 bytes are promised for the copy's buffer: str.c keeps the original's `size` field but STRDUPs
+ * the text - open finding C01-dup-size of agent str - so the copy's capacity must not be relied on) */
 __CPROVER_ensures(__CPROVER_return_value->len == self->len && __CPROVER_return_value->size > self->len)
-__CPROVER_ensures(__CPROVER_is_fresh(__CPROVER_return_value->s, (size_t) __CPROVER_return_value->size))
+__CPROVER_ensures(__CPROVER_is_fresh(__CPROVER_return_value->s, (size_t) self->len + 1))
 __CPROVER_ensures(__CPROVER_return_value->s[self->len] == 0)
 NET_CONTENT(__CPROVER_ensures(!(vg_k < (size_t) self->len) || __CPROVER_return_value->s[vg_k] == self->s[vg_k]))
 ;
